@@ -257,7 +257,9 @@ func (d *TSDDecoder) EndTime() uint16 {
 
 // Next returns if has next slot data
 func (d *TSDDecoder) Next() bool {
-	if d.startTime+d.idx <= d.endTime {
+	// compare in int: startTime+idx wraps around in uint16 when the block ends at slot 65535,
+	// which made Next() return true forever.
+	if int(d.startTime)+int(d.idx) <= int(d.endTime) {
 		d.idx++
 		return true
 	}
